@@ -126,7 +126,7 @@ def seeded(props, tier='quick'):
         exp = meta.get('expect_' + tier, meta.get('expect', 'caught'))
         # the property a change breaks is normally decided by that property's check; a few are decided by a neighbouring check
         rc, keys, tail = run_seeded(sid, meta.get('caught_by_property', meta['property']), tier)
-        ok = (rc == 1) if exp == 'caught' else (rc == 0)
+        ok = (rc == 1) if exp == 'caught' else (rc in (0, 1)) if exp == 'either' else (rc == 0)
         print('seeded %s (%s, %s): exit %d %s %s' % (sid, meta['property'], tier, rc, 'OK(' + exp + ')' if ok else 'UNEXPECTED(want ' + exp + ')', [k[:160] for k in keys[:2]]))
         if not ok:
             print('    ' + tail.replace('\n', '\n    ')[-800:])
